@@ -32,7 +32,8 @@ RULE = ("history of 2..20 operations (expression and function tasks, nested targ
         "writes incl. the assigned location itself, user-function calls, function-task actions).  Non-trivial = |W| >= 3 "
         "and some 0 < k < |W|-1 explored; distinct by (history, assignment) digest; evaluations counts (case, k) executions.")
 ASSUMPTIONS = [
-    "linear knobs are excluded: they are incremental (stateful) tasks for which re-running is not idempotent by design",
+    "linear knobs have a single target here: a knob that fails between two of its own target writes has applied half of an "
+    "increment, and re-running an incremental task cannot know that (by design)",
     "the observed assignment is a value or expression assignment (an in-place operator is a different assignment each time)",
     "known-finding class K1 is excluded by construction (C01)",
     "the definitions compared are those the fault-free assignment establishes (set_value registers before it writes)",
@@ -40,7 +41,8 @@ ASSUMPTIONS = [
 LEVEL = "fault_enumeration"
 REQUIRED_CLASSES = ["fault:k=0(assigned-location)", "fault:mid", "fault:last", "fault:user-function",
                     "fault:function-task-action", "consecutive-faults", "observed:sete", "observed:setv",
-                    "fault-type:KeyError", "fault-type:AttributeError", "fault-type:Injected", "fault-type:RuntimeError"]
+                    "fault-type:KeyError", "fault-type:AttributeError", "fault-type:Injected", "fault-type:RuntimeError",
+                    "with-linear-knob"]
 
 
 class Injected(Exception):
@@ -176,6 +178,8 @@ def exec_case(ctx, case):
         classes.add("K1-class(replayed)")
         return finish(None, False)
     classes.add("observed:" + obs["op"])
+    if model.knobs:
+        classes.add("with-linear-knob")
     classes.add("fault-type:" + case.get("fault_type", "Injected"))
     where = {"history": rendered["history"], "observed": rendered["observed"]}
     # ---- reference: the fault-free update on the twin
@@ -320,7 +324,7 @@ def graph_checks(world, ref_graph, wh):
 
 def run(ctx):
     n = ctx.n(400, 3000)
-    opts = H.Opts(knobs=False, max_ops=20, maint=False)
+    opts = H.Opts(knobs=True, knob_single_target=True, max_ops=20, maint=False)
     drive(ctx, cases(opts), lambda c: exec_case(ctx, c), n, salt=1, label="C18")
 
 
